@@ -1221,3 +1221,366 @@ Section Pool.
         * apply GP_app. split; [exact G1|]. unfold GP. cbn. constructor; auto.
   Qed.
 End Pool.
+
+Lemma InvS_init_start s : InvS (fst (h_start init s)).
+Proof.
+  unfold InvS. cbn [fst h_start s_log s_cons s_sres_nodes emit set_root set_rootmd set_tags init app].
+  split; [|split; [|split; [|split; [|split]]]].
+  - intros cid d. rewrite puts_one. intros [].
+  - intros cid c. cbn. discriminate.
+  - intros k cid. cbn. discriminate.
+  - rewrite new_arrays_one. reflexivity.
+  - intros cid H. exfalso. apply H. reflexivity.
+  - constructor.
+Qed.
+
+Section PoolRun.
+  Context {X : Type}.
+  Variable f : sdatum -> list X.
+  Variable good : sdatum -> Prop.
+  Hypothesis merge_good : forall a b m, good a -> good b -> concat2 a b = inr m -> good m.
+  Hypothesis merge_f : forall a b m, good a -> good b -> concat2 a b = inr m -> Permutation (f m) (f a ++ f b).
+
+  Lemma handle_body_ext bs st d st' received :
+    InvS st -> InvE f good st received -> is_body d = true ->
+    (forall x, In x (stream_datums [d]) -> good x) ->
+    handle bs st d = (st', None) ->
+    InvS st' /\ InvE f good st' (received ++ stream_datums [d]).
+  Proof.
+    intros I E B G H.
+    assert (SE : same_ext st st' -> stream_datums [d] = [] ->
+                 InvS st' /\ InvE f good st' (received ++ stream_datums [d])).
+    { intros S ->. rewrite app_nil_r. split; [eapply InvS_same_ext; eauto | eapply InvE_same_ext; eauto]. }
+    destruct d; cbn [handle is_body] in *; try discriminate.
+    - apply SE; [|reflexivity]. apply h_descriptor_frame in H. tauto.
+    - apply SE; [|reflexivity]. apply h_event_frame in H. tauto.
+    - apply SE; [|reflexivity]. apply h_events_frame in H. tauto.
+    - apply SE; [|reflexivity]. apply h_sres_frame in H. tauto.
+    - cbn. eapply h_sdatum_ext; eauto. apply G. cbn. left. reflexivity.
+  Qed.
+
+  Lemma run_body_ext bs : forall docs st st' received,
+    InvS st -> InvE f good st received -> forallb is_body docs = true ->
+    (forall x, In x (stream_datums docs) -> good x) ->
+    run_from bs st docs = (st', None) ->
+    InvS st' /\ InvE f good st' (received ++ stream_datums docs).
+  Proof.
+    induction docs as [|d docs IH]; cbn [run_from]; intros st st' received I E B G H.
+    - inversion H; subst. cbn. rewrite app_nil_r. auto.
+    - cbn [forallb] in B. apply andb_true_iff in B as [B1 B2].
+      destruct (handle bs st d) as [st1 [x|]] eqn:Hd; [discriminate|].
+      change (d :: docs) with ([d] ++ docs) in *. unfold stream_datums in *. rewrite flat_map_app in *.
+      eapply handle_body_ext in Hd as [I1 E1]; eauto.
+      + eapply IH in H as [I2 E2]; eauto.
+        * rewrite app_assoc. auto.
+        * intros x J. apply G. apply in_or_app. right. exact J.
+      + intros x J. apply G. apply in_or_app. left. exact J.
+  Qed.
+
+  Lemma flush_external_ext l : forall st st',
+    InvS st -> flush_external st l = (st', None) ->
+    InvS st' /\ s_ecache st' = s_ecache st
+    /\ exists ws, puts (s_log st') = puts (s_log st) ++ ws /\ map snd ws = map snd l.
+  Proof.
+    induction l as [|[k d] l IH]; cbn [flush_external]; intros st st' I H.
+    - inversion H; subst. split; [exact I|]. split; [reflexivity|]. exists []. rewrite app_nil_r. auto.
+    - destruct (write_external st d) as [s1 [e|]] eqn:W; [discriminate|].
+      destruct (write_external_ok _ _ _ I W) as (I1 & E1 & (cid & P1)).
+      destruct (IH _ _ I1 H) as (I2 & E2 & (ws & P2 & M2)).
+      split; [exact I2|]. split; [congruence|]. exists ((cid, d) :: ws).
+      rewrite P2, P1, <- app_assoc. split; [reflexivity|]. cbn. rewrite M2. reflexivity.
+  Qed.
+
+  Lemma InvE_init_start s : InvE f good (fst (h_start init s)) [].
+  Proof.
+    unfold InvE. cbn [fst h_start s_log s_ecache emit set_root set_rootmd set_tags init app].
+    rewrite puts_one. unfold GP, FP. cbn. repeat split; constructor.
+  Qed.
+
+  Lemma external_pool_thm bs s body m st :
+    run bs (DStart s :: body ++ [DStop m]) = (st, None) -> forallb is_body body = true ->
+    (forall x, In x (stream_datums body) -> good x) ->
+    InvS st
+    /\ Permutation (flat_map f (map snd (puts (s_log st)))) (flat_map f (stream_datums body))
+    /\ Forall good (map snd (puts (s_log st)))
+    /\ (forall k d, In (k, d) (s_ecache st) -> In d (map snd (puts (s_log st)))).
+  Proof.
+    intros R B G. apply run_decompose in R as (st1 & R1 & R2).
+    assert (I0 := InvS_init_start s).
+    destruct (run_body_ext bs body _ _ [] I0 (InvE_init_start s) B G R1) as [I1 E1]. cbn [app] in E1.
+    apply h_stop_ok in R2 as (st2 & st3 & F1 & F2 & ->).
+    apply flush_internal_frame in F1 as [S2 _].
+    destruct (InvS_same_ext _ _ I1 S2) as [I2 P2]. assert (E2 := InvE_same_ext f good _ _ _ I1 E1 S2).
+    destruct (flush_external_ext _ _ _ I2 F2) as (I3 & EC3 & (ws & P3 & M3)).
+    match goal with |- context[emit ?e ?s0] => set (stf := emit e s0) end.
+    assert (S4 : same_ext st3 stf) by (subst stf; repeat split; ext_tac).
+    destruct (InvS_same_ext _ _ I3 S4) as [I4 P4].
+    destruct E2 as (N2 & Q2 & G2a & G2b).
+    split; [exact I4|]. rewrite P4, P3. split; [|split].
+    - rewrite map_app, flat_map_app, M3. exact Q2.
+    - rewrite map_app. apply Forall_app. split; [exact G2a | rewrite M3; exact G2b].
+    - destruct S4 as (-> & _). rewrite EC3. intros k d J. rewrite map_app, M3. apply in_or_app. right.
+      apply in_map_iff. exists (k, d). auto.
+  Qed.
+End PoolRun.
+
+(* ------------------------------------------------------------------ concatenation is additive on index ranges *)
+
+Lemma map_seq_shift {A} (F : nat -> A) m : forall n,
+  map F (seq n m) = map (fun i => F (n + i)%nat) (seq 0 m).
+Proof.
+  induction m as [|m IH]; intros n; [reflexivity|]. cbn [seq map]. f_equal; [f_equal; lia|].
+  rewrite <- (seq_shift m 0), map_map, (IH (S n)). apply map_ext. intros i. f_equal. lia.
+Qed.
+
+Lemma zrange_app a b c : (a <= b)%Z -> (b <= c)%Z -> zrange a c = zrange a b ++ zrange b c.
+Proof.
+  intros H1 H2. unfold zrange.
+  replace (Z.to_nat (c - a)) with (Z.to_nat (b - a) + Z.to_nat (c - b))%nat by lia.
+  rewrite seq_app, map_app. f_equal. rewrite Nat.add_0_l, map_seq_shift. apply map_ext. intros i. lia.
+Qed.
+
+Lemma zrange_length a b : (a <= b)%Z -> Z.of_nat (length (zrange a b)) = (b - a)%Z.
+Proof. intros H. unfold zrange. rewrite map_length, seq_length. lia. Qed.
+
+Lemma concat2_inv a b m : concat2 a b = inr m ->
+  sd_sres a = sd_sres b
+  /\ exists x y, ((x = a /\ y = b) \/ (x = b /\ y = a)) /\ sd_i1 x = sd_i0 y
+                 /\ m = mkSD (sd_uid y) (sd_sres y) (sd_desc y) (sd_i0 x) (sd_i1 y) (sd_q0 x) (sd_q1 y).
+Proof.
+  unfold concat2. destruct (seqb (sd_desc a) (sd_desc b)); cbn [negb]; [|discriminate].
+  destruct (seqb (sd_sres a) (sd_sres b)) eqn:E; cbn [negb]; [|discriminate]. apply seqb_eq in E.
+  destruct (sd_i0 b <? sd_i0 a)%Z.
+  - destruct (sd_i1 b =? sd_i0 a)%Z eqn:E2; cbn [negb]; [|discriminate]. intros [= <-].
+    split; [exact E|]. exists b, a. split; [right; auto|]. split; [lia | reflexivity].
+  - destruct (sd_i1 a =? sd_i0 b)%Z eqn:E2; cbn [negb]; [|discriminate]. intros [= <-].
+    split; [exact E|]. exists a, b. split; [left; auto|]. split; [lia | reflexivity].
+Qed.
+
+Definition good_ind (d : sdatum) : Prop := (sd_i0 d <= sd_i1 d)%Z.
+Definition good_seq (off : string -> Z) (d : sdatum) : Prop :=
+  (sd_i0 d <= sd_i1 d)%Z /\ sd_q0 d = (sd_i0 d + off (sd_sres d))%Z /\ sd_q1 d = (sd_i1 d + off (sd_sres d))%Z.
+
+Lemma merge_good_ind a b m : good_ind a -> good_ind b -> concat2 a b = inr m -> good_ind m.
+Proof.
+  unfold good_ind. intros Ga Gb C. apply concat2_inv in C as (_ & x & y & [[-> ->]|[-> ->]] & E & ->); cbn; lia.
+Qed.
+
+Lemma merge_tag_ind a b m : good_ind a -> good_ind b -> concat2 a b = inr m ->
+  Permutation (tag_ind m) (tag_ind a ++ tag_ind b).
+Proof.
+  unfold good_ind. intros Ga Gb C. apply concat2_inv in C as (ES & x & y & O & E & ->).
+  assert (Q : tag_ind (mkSD (sd_uid y) (sd_sres y) (sd_desc y) (sd_i0 x) (sd_i1 y) (sd_q0 x) (sd_q1 y))
+              = tag_ind x ++ tag_ind y).
+  { unfold tag_ind, expand_ind. cbn [sd_sres sd_i0 sd_i1].
+    assert (sd_sres x = sd_sres y) by (destruct O as [[-> ->]|[-> ->]]; congruence).
+    assert (sd_i0 x <= sd_i1 x /\ sd_i0 y <= sd_i1 y)%Z by (destruct O as [[-> ->]|[-> ->]]; lia).
+    rewrite (zrange_app (sd_i0 x) (sd_i1 x) (sd_i1 y)) by lia. rewrite map_app, E. congruence. }
+  rewrite Q. destruct O as [[-> ->]|[-> ->]]; [reflexivity | apply Permutation_app_comm].
+Qed.
+
+Lemma merge_good_seq off a b m : good_seq off a -> good_seq off b -> concat2 a b = inr m -> good_seq off m.
+Proof.
+  unfold good_seq. intros Ga Gb C. apply concat2_inv in C as (ES & x & y & O & E & ->). cbn.
+  assert (sd_sres x = sd_sres y) by (destruct O as [[-> ->]|[-> ->]]; congruence).
+  destruct O as [[-> ->]|[-> ->]]; repeat split; try lia; try tauto.
+  all: destruct Ga as (? & ? & ?), Gb as (? & ? & ?); congruence.
+Qed.
+
+Lemma merge_tag_seq off a b m : good_seq off a -> good_seq off b -> concat2 a b = inr m ->
+  Permutation (tag_seq m) (tag_seq a ++ tag_seq b).
+Proof.
+  unfold good_seq. intros Ga Gb C. apply concat2_inv in C as (ES & x & y & O & E & ->).
+  assert (Q : tag_seq (mkSD (sd_uid y) (sd_sres y) (sd_desc y) (sd_i0 x) (sd_i1 y) (sd_q0 x) (sd_q1 y))
+              = tag_seq x ++ tag_seq y).
+  { unfold tag_seq, expand_seq. cbn [sd_sres sd_q0 sd_q1].
+    assert (HS : sd_sres x = sd_sres y) by (destruct O as [[-> ->]|[-> ->]]; congruence).
+    assert (HX : (sd_i0 x <= sd_i1 x)%Z /\ sd_q0 x = (sd_i0 x + off (sd_sres x))%Z /\ sd_q1 x = (sd_i1 x + off (sd_sres x))%Z)
+      by (destruct O as [[-> ->]|[-> ->]]; tauto).
+    assert (HY : (sd_i0 y <= sd_i1 y)%Z /\ sd_q0 y = (sd_i0 y + off (sd_sres y))%Z /\ sd_q1 y = (sd_i1 y + off (sd_sres y))%Z)
+      by (destruct O as [[-> ->]|[-> ->]]; tauto).
+    assert (EQ : sd_q1 x = sd_q0 y) by (destruct HX as (_ & _ & ->), HY as (_ & -> & _); rewrite HS; lia).
+    rewrite (zrange_app (sd_q0 x) (sd_q1 x) (sd_q1 y)) by (rewrite HS in HX; lia). rewrite map_app, EQ, HS. reflexivity. }
+  rewrite Q. destruct O as [[-> ->]|[-> ->]]; [reflexivity | apply Permutation_app_comm].
+Qed.
+
+(* ------------------------------------------------------------------ per consolidator *)
+
+Lemma Permutation_filter {A} (p : A -> bool) l l' : Permutation l l' -> Permutation (filter p l) (filter p l').
+Proof.
+  induction 1; cbn.
+  - constructor.
+  - destruct (p x); [constructor|]; assumption.
+  - destruct (p x), (p y); try constructor; try reflexivity.
+  - etransitivity; eauto.
+Qed.
+
+Section Tagged.
+  Variable xs : sdatum -> list Z.
+  Definition tg (d : sdatum) : list (string * Z) := map (pair (sd_sres d)) (xs d).
+
+  Lemma filter_tag (g : string -> bool) ds :
+    filter (fun a => g (fst a)) (flat_map tg ds) = flat_map tg (filter (fun d => g (sd_sres d)) ds).
+  Proof.
+    induction ds as [|d ds IH]; cbn [flat_map filter]; [reflexivity|].
+    rewrite filter_app, IH. destruct (g (sd_sres d)) eqn:E; cbn [flat_map].
+    - f_equal. unfold tg. induction (xs d) as [|z l IHl]; cbn; [reflexivity|]. rewrite E, IHl. reflexivity.
+    - replace (filter _ (tg d)) with (@nil (string * Z)); [reflexivity|].
+      unfold tg. induction (xs d) as [|z l IHl]; cbn; [reflexivity|]. rewrite E. exact IHl.
+  Qed.
+
+  Lemma map_snd_tag ds : map snd (flat_map tg ds) = flat_map xs ds.
+  Proof.
+    induction ds as [|d ds IH]; cbn; [reflexivity|]. rewrite map_app, IH. f_equal.
+    unfold tg. rewrite map_map. cbn. apply map_id.
+  Qed.
+End Tagged.
+
+Definition mapped_to (cid : string) (nodes : list (string * string)) (d : sdatum) : bool :=
+  match lookup (sd_sres d) nodes with Some c => seqb cid c | None => false end.
+
+Lemma puts_filter cid nodes l :
+  (forall cid' d, In (cid', d) (puts l) -> lookup (sd_sres d) nodes = Some cid') ->
+  filter (mapped_to cid nodes) (map snd (puts l)) = puts_of cid l.
+Proof.
+  induction l as [|e l IH]; intros H; [reflexivity|].
+  change (e :: l) with ([e] ++ l) in *. rewrite puts_app, puts_of_app, map_app, filter_app.
+  rewrite IH by (intros c' d J; apply H; rewrite puts_app; apply in_or_app; right; exact J).
+  f_equal. rewrite puts_one, puts_of_one. destruct e; try reflexivity. cbn.
+  unfold mapped_to. rewrite (H (fdk node dk) consumed); [|rewrite puts_app, puts_one; left; reflexivity].
+  destruct (seqb cid (fdk node dk)); reflexivity.
+Qed.
+
+Lemma per_consolidator (xs : sdatum -> list Z) cid nodes l received :
+  (forall cid' d, In (cid', d) (puts l) -> lookup (sd_sres d) nodes = Some cid') ->
+  Permutation (flat_map (tg xs) (map snd (puts l))) (flat_map (tg xs) received) ->
+  Permutation (flat_map xs (puts_of cid l)) (flat_map xs (filter (mapped_to cid nodes) received)).
+Proof.
+  intros H P.
+  apply (Permutation_filter (fun a => match lookup (fst a) nodes with Some c => seqb cid c | None => false end)) in P.
+  rewrite (filter_tag xs (fun s => match lookup s nodes with Some c => seqb cid c | None => false end)) in P.
+  rewrite (filter_tag xs (fun s => match lookup s nodes with Some c => seqb cid c | None => false end)) in P.
+  apply (Permutation_map snd) in P. rewrite !map_snd_tag in P.
+  change (fun d => match lookup (sd_sres d) nodes with Some c => seqb cid c | None => false end)
+    with (mapped_to cid nodes) in P.
+  rewrite puts_filter in P by exact H. exact P.
+Qed.
+
+Lemma zsum_width_length l : Forall good_ind l ->
+  zsum (map width l) = Z.of_nat (length (flat_map expand_ind l)).
+Proof.
+  induction 1 as [|d l G F IH]; [reflexivity|]. cbn [map flat_map]. rewrite app_length, Nat2Z.inj_add.
+  change (zsum (width d :: map width l)) with (width d + zsum (map width l))%Z. rewrite IH.
+  f_equal. unfold expand_ind. rewrite zrange_length by exact G. reflexivity.
+Qed.
+
+Lemma stream_datums_run s body m : stream_datums (DStart s :: body ++ [DStop m]) = stream_datums body.
+Proof. unfold stream_datums. cbn. rewrite flat_map_app. cbn. apply app_nil_r. Qed.
+
+Lemma external_arrays_thm bs docs st :
+  run bs docs = (st, None) -> is_run docs -> sd_wf docs ->
+  let L := s_log st in
+  Permutation (flat_map tag_ind (map snd (puts L))) (flat_map tag_ind (stream_datums docs))
+  /\ (forall cid, Permutation (flat_map expand_ind (puts_of cid L)) (flat_map expand_ind (received_for cid st docs)))
+  /\ (forall cid c, lookup cid (s_cons st) = Some c ->
+        cid = fdk (c_node c) (c_dk c) /\ c_consumed c = puts_of cid L
+        /\ c_rows c = zsum (map width (received_for cid st docs))
+        /\ (put_shapes cid L = [] \/ last (put_shapes cid L) 0%Z = (c_rows c * c_mult c)%Z))
+  /\ (forall d, In d (stream_datums docs) -> (sd_i0 d < sd_i1 d)%Z ->
+        exists cid, lookup (sd_sres d) (s_sres_nodes st) = Some cid /\ lookup cid (s_cons st) <> None)
+  /\ (forall k d, In (k, d) (s_ecache st) -> In d (map snd (puts L)))
+  /\ NoDup (new_arrays L) /\ new_arrays L = map fst (s_cons st).
+Proof.
+  intros R (s & body & m & -> & B) WF L. rewrite stream_datums_run in *.
+  assert (WF' : forall x, In x (stream_datums body) -> good_ind x).
+  { intros x J. apply WF. rewrite stream_datums_run. exact J. }
+  destruct (external_pool_thm tag_ind good_ind merge_good_ind merge_tag_ind bs s body m st R B WF')
+    as ((S4 & S5 & S6 & S7 & S8 & S9) & P & G & C).
+  fold L in S4, S5, S7, P, G, C.
+  assert (PC : forall cid, Permutation (flat_map expand_ind (puts_of cid L)) (flat_map expand_ind (received_for cid st (DStart s :: body ++ [DStop m])))).
+  { intros cid. unfold received_for. rewrite stream_datums_run.
+    apply (per_consolidator expand_ind cid (s_sres_nodes st) L (stream_datums body) S4 P). }
+  split; [exact P|]. split; [exact PC|]. split; [|split; [|split; [exact C|split]]].
+  - intros cid c LC. destruct (S5 _ _ LC) as (F1 & F2 & F3 & F4). repeat split; auto.
+    rewrite F3. rewrite !zsum_width_length.
+    + f_equal. apply Permutation_length. apply PC.
+    + unfold received_for. rewrite stream_datums_run. apply Forall_forall. intros x J.
+      apply filter_In in J as [J _]. apply WF'. exact J.
+    + apply Forall_forall. intros x J. apply puts_of_in in J. rewrite Forall_forall in G. apply G.
+      apply in_map_iff. exists (cid, x). auto.
+  - intros d J LT.
+    assert (A : In (sd_sres d, sd_i0 d) (flat_map tag_ind (stream_datums body))).
+    { apply in_flat_map. exists d. split; [exact J|]. unfold tag_ind. apply in_map. unfold expand_ind, zrange.
+      apply in_map_iff. exists 0%nat. split; [lia|]. apply in_seq. lia. }
+    apply (Permutation_in _ (Permutation_sym P)) in A. apply in_flat_map in A as (p & Jp & Ap).
+    apply in_map_iff in Jp as ([cid p'] & <- & Jp). cbn [snd] in Ap.
+    unfold tag_ind in Ap. apply in_map_iff in Ap as (z & [= E _] & _).
+    exists cid. rewrite <- E. split; [apply S4; exact Jp | eapply S6; apply S4; exact Jp].
+  - rewrite S7. exact S9.
+  - exact S7.
+Qed.
+
+Lemma external_seq_thm bs docs st off :
+  run bs docs = (st, None) -> is_run docs -> sd_wf docs -> seq_aligned off docs ->
+  let L := s_log st in
+  Permutation (flat_map tag_seq (map snd (puts L))) (flat_map tag_seq (stream_datums docs))
+  /\ (forall cid, Permutation (flat_map expand_seq (puts_of cid L)) (flat_map expand_seq (received_for cid st docs))).
+Proof.
+  intros R (s & body & m & -> & B) WF AL L. rewrite stream_datums_run in *.
+  assert (WF' : forall x, In x (stream_datums body) -> good_seq off x).
+  { intros x J. split; [apply WF | apply AL]; rewrite stream_datums_run; exact J. }
+  destruct (external_pool_thm tag_seq (good_seq off) (merge_good_seq off) (merge_tag_seq off) bs s body m st R B WF')
+    as ((S4 & _) & P & _).
+  fold L in S4, P. split; [exact P|].
+  intros cid. unfold received_for. rewrite stream_datums_run.
+  apply (per_consolidator expand_seq cid (s_sres_nodes st) L (stream_datums body) S4 P).
+Qed.
+
+(* ------------------------------------------------------------------ arrays are distinct, whatever the ranges *)
+
+Lemma arrays_distinct_thm bs docs st :
+  run bs docs = (st, None) -> is_run docs ->
+  let L := s_log st in
+  NoDup (new_arrays L) /\ new_arrays L = map fst (s_cons st)
+  /\ (forall cid c, lookup cid (s_cons st) = Some c -> cid = fdk (c_node c) (c_dk c) /\ c_consumed c = puts_of cid L)
+  /\ (forall cid d, In (cid, d) (puts L) ->
+        lookup (sd_sres d) (s_sres_nodes st) = Some cid /\ lookup cid (s_cons st) <> None).
+Proof.
+  intros R (s & body & m & -> & B) L.
+  destruct (external_pool_thm (fun _ => @nil unit) (fun _ => True) (fun _ _ _ _ _ _ => I)
+              (fun _ _ _ _ _ _ => Permutation_refl _) bs s body m st R B (fun _ _ => I))
+    as ((S4 & S5 & S6 & S7 & S8 & S9) & _).
+  fold L in S4, S5, S7. repeat split.
+  - rewrite S7. exact S9.
+  - exact S7.
+  - apply S5 in H. tauto.
+  - apply S5 in H. tauto.
+  - apply S4. exact H.
+  - eapply S6. apply S4. exact H.
+Qed.
+
+(* ------------------------------------------------------------------ the boolean hypotheses imply the propositions *)
+
+Lemma is_run_b_sound docs : is_run_b docs = true -> is_run docs.
+Proof.
+  unfold is_run_b, is_run. destruct docs as [|[s| | | | | |] rest]; try discriminate.
+  destruct (rev rest) as [|[| | | | | |m] body'] eqn:E; try discriminate. intros H.
+  exists s, (rev body'), m. split.
+  - f_equal. rewrite <- (rev_involutive rest), E. reflexivity.
+  - rewrite forallb_forall in *. intros x J. apply H. apply in_rev. exact J.
+Qed.
+
+Lemma ns_disjoint_b_sound docs : ns_disjoint_b docs = true -> ns_disjoint docs.
+Proof.
+  unfold ns_disjoint_b, ns_disjoint. rewrite forallb_forall. intros H r n Jr Jn E. subst.
+  apply H in Jr. apply negb_true_iff, smem_notin in Jr. tauto.
+Qed.
+
+Lemma sd_wf_b_sound docs : sd_wf_b docs = true -> sd_wf docs.
+Proof. unfold sd_wf_b, sd_wf. rewrite forallb_forall. intros H d J. apply H in J. lia. Qed.
+
+Lemma aligned_b_sound docs : aligned_b docs = true -> seq_aligned (off_of docs) docs.
+Proof.
+  unfold aligned_b, seq_aligned. rewrite forallb_forall. intros H d J. apply H in J.
+  apply andb_true_iff in J. lia.
+Qed.
